@@ -24,9 +24,8 @@ import vlib
 T = "analysis/taint/testdata/"
 B = "analysis/backtrace/testdata/"
 GRAPHS_QUICK = [(T + "tuples", "taint-eager,taint-ondemand"), (T + "globals", "taint-eager,taint-ondemand"),
-                (T + "interfaces", "taint-ondemand"), (T + "closures", "taint-eager,taint-ondemand"),
-                (T + "stdlib", "taint-eager"), (B + "backtrace", "backtrace-ondemand"),
-                (B + "closures", "backtrace-ondemand")]
+                (T + "interfaces", "taint-ondemand"), (T + "closures", "taint-ondemand"),
+                (T + "stdlib", "taint-eager"), (B + "closures", "backtrace-ondemand")]
 GRAPHS_THOROUGH = [(T + d, "taint-eager,taint-ondemand") for d in
                    ("tuples", "globals", "interfaces", "closures", "stdlib", "basic", "fields", "parameters", "defers",
                     "closures_paper", "closures_flowprecise", "interface-summaries", "example1", "with-context",
@@ -240,11 +239,15 @@ def walk_dump(path):
 
 # ---------------------------------------------------------------------------------- the check
 def run(chk):
+    import time
     tier = chk.tier
     quick = tier == "quick"
+    t0 = time.time()
     failed = chk.prove("theories/Properties/C17.v")
+    t1 = time.time()
     vlib.build_harness(["c17dump"])
     model = vlib.build_model("c17")
+    t2 = time.time()
     dump = os.path.join(vlib.BIN, "c17dump")
     work = os.path.join(vlib.BUILD, "c17")
     shutil.rmtree(work, ignore_errors=True)
@@ -263,7 +266,7 @@ def run(chk):
     graphs.append((gdir, "taint-eager,taint-ondemand,backtrace-ondemand"))
     opsdirs = [os.path.join(vlib.REPO, d) for d in (OPS_QUICK if quick else OPS_THOROUGH)]
     opsdirs = [d for d in opsdirs if os.path.isdir(d)] + [gdir]
-    every, maxsnaps = (3, 8) if quick else (1, 400)
+    every, maxsnaps = (3, 6) if quick else (1, 400)
     jobs = []
     for i, (d, m) in enumerate(graphs):
         jobs.append(("graphs", d, os.path.join(work, "g%d.dump" % i),
@@ -273,13 +276,16 @@ def run(chk):
         jobs.append(("ops", d, os.path.join(work, "o%d.dump" % i),
                      [dump, "ops", "-seed", str(chk.seed), "-batches", "4" if quick else "12", "-n", "60", "-targets", "60",
                       "-o", os.path.join(work, "o%d.dump" % i), d]))
+    jobtimes = []
     nfb = 2 if quick else 6
     for i in range(nfb):
         jobs.append(("fb", gdir, os.path.join(work, "fb%d.out" % i), [dump, "fb", "-o", os.path.join(work, "fb%d.out" % i), gdir]))
 
     def do(job):
         kind, d, out, cmd = job
+        ts = time.time()
         rc, log = vlib.sh(cmd, timeout=3000)
+        jobtimes.append((round(time.time() - ts, 1), kind, os.path.basename(d)))
         if rc != 0:
             return job, rc, log, None
         mout = None
@@ -291,6 +297,7 @@ def run(chk):
 
     with concurrent.futures.ThreadPoolExecutor(max_workers=4 if quick else 6) as ex:
         results = list(ex.map(do, jobs))
+    t3 = time.time()
 
     stats = collections.Counter()
     distinct = set()
@@ -480,11 +487,14 @@ def run(chk):
                        "(function name, multiset of (source kind, destination kind, index) edges)")
     chk.cov["traces_validated_against_impl"] = stats["snapshots"] + stats["op_batches"] - stats["tdump_mismatch"]
     chk.cov["distribution"] = dict(stats)
+    chk.cov["phase_seconds"] = {"coq_make_and_print_assumptions": round(t1 - t0, 1), "go_build_and_extraction": round(t2 - t1, 1),
+                                "dump_and_model_runs(4 workers)": round(t3 - t2, 1), "recheck_and_compare": round(time.time() - t3, 1),
+                                "jobs": sorted(jobtimes, reverse=True)[:8]}
     chk.assumptions += [
         "closed world of a snapshot = everything reachable from FlowGraph.Summaries through node maps, out/in keys, call-site / "
         "closure registrations and global location sets",
         "on-demand steps are observed through the debug log lines of onDemandIntraProcedural / BuildSummary (quick tier: every "
-        "3rd step, at most 8 per run, plus after the intra pass, after BuildGraph and at the end)",
+        "3rd step, at most 6 per run, plus after the intra pass, after BuildGraph and at the end)",
         "T-dump drives updateEdgeInfo/addInEdge, add*EdgeByPos, SyncGlobals, PopulateGraphFromSummary, resolveCalleeSummary and Sync; "
         "the add*Edge dispatchers and RunIntraProcedural are covered by T-cert on the graphs they build",
         "ops_preserve_consistent is proved for valid operations (no second call node of the same instruction linked to one summary; "
